@@ -98,6 +98,18 @@ CLAIMS = {
         text="Bounded: Rdata::equals(a, b) == an independent reference equality (both well formed for the type -> fixed fields octet-equal and embedded names equal ignoring ASCII case; otherwise octet equality) in both argument orders, plus symmetry, reflexivity and (triples) transitivity stated separately, for RDATA pairs of independent concrete lengths with all octets symbolic: NS lengths (3,3),(3,4) quick and the full grid {0,1,3,4,5}^2 thorough; MD/MF/CNAME/MB/MG/MR/PTR (3,3),(3,4); MX, CH A (5,5), MINFO (4,4), short/unequal lengths for MX/SRV/CH A/MINFO, skeleton pairs for SOA/MINFO/NS/SRV; every class x type (2^32) outside the table is octet equality; RdataSetOwned::from_iter/insert keep the first member of each equality class in insertion order (three IN A RDATA; two NS RDATA thorough).",
         note="Stub S10: <[u8]>::eq_ignore_ascii_case (std) replaced by a per-octet loop, checked against the real function on 3 and 18 octets. Fully symbolic SRV (9,9) and SOA (22,22) pairs and three NS RDATA through insert exceed 13 GB and are covered by skeleton pairs only; names longer than 5 octets skeleton-only; TYPE concrete in name-reaching harnesses.",
         ref="DESIGN.md A4.2, B-C19"),
+    "C22": dict(
+        text="Bounded, on hand-built catalog trees (struct literals of the private fields + the HashMap model's insert; real recursive functions): Catalog::lookup and the provided get return the longest-suffix / exact entry of a reference association list for every pool name (., a., b.a., x.a., c.b.a.) on a 5-node tree whose entries are all symbolic (absent / NotYetLoaded / FailedToLoad with a symbolic tag) plus a second class root (class separation); one remove_in_class step from that arbitrary tree (remove c.b.a. quick; x.a., b.a., the root, a cascading chain thorough): returned entry correct and every OTHER entry still found by lookup and get; the history insert a., insert b.a., remove b.a. through HashMapTreeCatalog::remove; SingleZoneCatalog lookup/get for any class, kind and tag.",
+        note="Stub S1 (HashMap model), S10 model of eq_ignore_ascii_case, cbmc --max-field-sensitivity-array-size 1024. NOT covered (measured): node creation - HashMapTreeCatalog::insert / get_or_create_descendant on a missing label run out of 14-17 GB under the HashMap model in every variant, so real insert histories are not decided; iteration (iter: 25 min symex on a 3-node catalog); Entry::Loaded; trees deeper than 4 labels. The remove-step harnesses rely on an --unwindset for a mangled drop-glue loop name; if it stops matching they time out (inconclusive), never pass wrongly.",
+        ref="DESIGN.md A4.2, B-C22"),
+    "C06": dict(
+        text="Bounded, one zone skeleton with symbolic contents (7-node hand-built HashMapTreeZone: apex, *.z. in {A, CNAME, TXT} or absent, d.z. in {NS cut, A, empty}, g.d.z., empty non-terminal e.z., f.e.z., *.e.z. or absent), symbolic search_below_cuts / unchecked flags and query type in {A, NS, CNAME, SOA, TXT}: lookup / lookup_addrs / lookup_all for query names at the cut, below the cut, outside the zone and the root (WrongZone), the apex, names that need wildcard synthesis at the apex and below an empty non-terminal, names with no wildcard: result kind, the right RRset (TTLs encode node and type), source of synthesis and referral child equal an RFC 1034 4.3.2 / RFC 4592 reference walk over the harness's own facts.",
+        note="Stub S1, S10 model; cbmc --max-field-sensitivity-array-size 1024. Zones are built by hand (node creation through add is out of reach, see C22/C20); other zone shapes, *.z. with lookup_addrs/lookup_all (20.9 GB), names more than 2 labels below nodes are outside. HashMapTreeZone::lookup_addrs never returns Cname (a CNAME-only node yields Found{None,None}); callers treat both alike and the oracle accepts either.",
+        ref="DESIGN.md A4.2, B-C06"),
+    "C20": dict(
+        text="Bounded, partial: RrsetList add/lookup/iter against a reference for three adds (types TXT,A,TXT quick; A,A,TXT and AAAA,TXT,A thorough) with TTL any u32 and RDATA any 2 octets: TtlMismatch iff an RRset of that type exists with another (RFC 2181-normalised) TTL, a rejected add changes nothing, each type yielded once, RDATA de-duplicated in insertion order; HashMapTreeZone::add rejections: owners outside the zone -> NotInZone, owners inside with a different class -> ClassMismatch, lookups unchanged afterwards; accepted adds at the apex (thorough).",
+        note="NOT covered (measured): adds that create nodes (get_or_create_descendant under the HashMap model: out of 14 GB in every variant), empty non-terminals, iteration (iter_by_node / iter_by_rrset, soa()/ns() vs iteration: 25 min symex without finishing). The 'iterating a zone yields every node once' half of the property is therefore not decided.",
+        ref="DESIGN.md A4.2, B-C20"),
 }
 
 GENERIC = dict(
